@@ -349,6 +349,19 @@ func (c *Ctx) redisNonEmptyBatches(r *redisRoles, rule string) {
 				return true
 			}
 		}
+		// the batch the caller passed in (a slice parameter of the method) is known to be non-empty: a list assembled
+		// from it element by element is non-empty as well
+		root := b.Parent()
+		for root.Parent() != nil {
+			root = root.Parent()
+		}
+		for _, p := range root.Params {
+			if _, isSlice := p.Type().Underlying().(*types.Slice); isSlice && !isByteSlice(p.Type()) {
+				if lenLowerBound(b, p) >= 1 {
+					return true
+				}
+			}
+		}
 		return false
 	}
 	isSlice := func(v ssa.Value) bool {
